@@ -125,5 +125,10 @@ func runCheck(c *Check, rf ruleFn, repo, only string) (code int) {
 	c.Extra["packages_analysed"] = len(p.Pkgs)
 	c.Extra["functions_with_bodies"] = p.NFunc
 	rf(c, p)
+	checkLiterals(c, p)
+	switch c.Prop {
+	case "C07", "C08", "C10", "C14", "C15":
+		checkStateless(c, p)
+	}
 	return c.Finish(verifDir(), only)
 }
